@@ -12,6 +12,8 @@ pub mod c08;
 pub mod c10;
 pub mod event;
 pub mod c12;
+pub mod c13;
+pub mod c17;
 pub mod c18;
 
 pub fn dispatch(args: &Args) -> i32 {
@@ -26,6 +28,8 @@ pub fn dispatch(args: &Args) -> i32 {
         "C08" => c08::run(args),
         "C10" => c10::run(args),
         "C12" => c12::run(args),
+        "C13" => c13::run(args),
+        "C17" => c17::run(args),
         "C18" => c18::run(args),
         p => {
             eprintln!("agv: no check for property {p}");
